@@ -110,9 +110,12 @@ def main():
         return best, bestv
 
     def finish(note):
+        import shutil
+
         stats.notes.append(note)
         with open(out, "w") as f:
             json.dump(stats.to_dict(), f)
+        shutil.rmtree(state.get("corpus", ""), ignore_errors=True)
         sys.stdout.flush()
         os._exit(0)
 
@@ -136,6 +139,7 @@ def main():
 
     corpus = os.path.join(VERIF_DIR, ".fuzz", pid, f"{facet_name}-{seed}-{os.getpid()}")
     os.makedirs(corpus, exist_ok=True)
+    state["corpus"] = corpus
     # Hypothesis rejects byte strings too short to decode a whole case, and libFuzzer grows inputs
     # slowly from an empty corpus: start from a few long pseudo-random strings (a function of the seed)
     import random as _random
@@ -144,7 +148,7 @@ def main():
     for k in range(8):
         with open(os.path.join(corpus, f"start{k}"), "wb") as f:
             f.write(bytes(rnd.getrandbits(8) if rnd.random() < 0.5 else 0 for _ in range(512 << (k % 4))))
-    argv = [sys.argv[0], corpus, f"-seed={seed}", f"-runs={runs * 2}", "-max_len=4096", "-len_control=0", f"-artifact_prefix={corpus}/", "-rss_limit_mb=4096", "-timeout=600"]
+    argv = [sys.argv[0], corpus, f"-seed={seed}", f"-runs={runs * 2}", "-max_len=4096", "-len_control=0", f"-artifact_prefix={corpus}/", "-rss_limit_mb=4096", "-timeout=600", "-verbosity=0"]
     atheris.Setup(argv, callback)
     atheris.Fuzz()
     finish(f"coverage-guided: libFuzzer stopped after {state['n']} inputs")
